@@ -41,7 +41,8 @@ def IpOK (l : Leaf K) : Prop :=
     s.next ≤ (l.ip x y s).2.next
 
 /-- Leaf contract: the bodies that the signature class makes reachable satisfy theirs. -/
-def LeafOK (l : Leaf K) : Prop := (l.sig ≠ .ip → OopOK l) ∧ (l.sig ≠ .oop → IpOK l)
+def LeafOK (l : Leaf K) : Prop :=
+  (l.sig ≠ .ip → OopOK l ∧ l.junk = false) ∧ (l.sig ≠ .oop → IpOK l)
 
 /-- Well-formed tree: leaves satisfy the contract; the operands of a sum / pointwise product
 have the same range kind (enforced by the constructors of `OperatorSum`,
@@ -100,8 +101,9 @@ theorem C03.call_out_of_place {K : Type} [Add K] [Mul K] (jk : Nat → Vec K) (e
     obtain ⟨ho, hi⟩ := h
     unfold callO
     cases hsig : l.sig
-    · obtain ⟨h1, h2, h3, h4⟩ := ho (by simp [hsig]) s x hx
-      simp only
+    · obtain ⟨hoo, hj⟩ := ho (by simp [hsig])
+      obtain ⟨h1, h2, h3, h4⟩ := hoo s x hx
+      simp only [hj, Bool.false_eq_true, if_false]
       cases hraw : l.raw
       · exact ⟨_, _, rfl, h1, h2, by rw [h3]; rfl, h4⟩
       · obtain ⟨s0, ea, hn0, hv0, hf0⟩ := alloc_spec (l.oop x s).2 ((l.oop x s).2.mem (l.oop x s).1)
@@ -121,8 +123,9 @@ theorem C03.call_out_of_place {K : Type} [Add K] [Mul K] (jk : Nat → Vec K) (e
           by change s.next ≤ (l.ip x s.next s0).2.next; omega, by rw [h2, hf0 x hxs]; rfl, ?_⟩
         intro b hb; rw [h3 b (by omega) (by omega), hf0 b (by omega)]
       · exact absurd hret h1
-    · obtain ⟨h1, h2, h3, h4⟩ := ho (by simp [hsig]) s x hx
-      simp only
+    · obtain ⟨hoo, hj⟩ := ho (by simp [hsig])
+      obtain ⟨h1, h2, h3, h4⟩ := hoo s x hx
+      simp only [hj, Bool.false_eq_true, if_false]
       cases hraw : l.raw
       · exact ⟨_, _, rfl, h1, h2, by rw [h3]; rfl, h4⟩
       · obtain ⟨s0, ea, hn0, hv0, hf0⟩ := alloc_spec (l.oop x s).2 ((l.oop x s).2.mem (l.oop x s).1)
@@ -234,7 +237,9 @@ theorem C03.call_in_place {K : Type} [Add K] [Mul K] [OfNat K 0] (hK : CommArith
     simp only [hl]
     cases hsig : l.sig
     · -- out-of-place only: default bridge out.assign(range.element(_call(x)))
-      obtain ⟨h1, h2, h3, h4⟩ := ho (by simp [hsig]) s x hx
+      obtain ⟨hoo, hj⟩ := ho (by simp [hsig])
+      obtain ⟨h1, h2, h3, h4⟩ := hoo s x hx
+      simp only [hj, Bool.false_eq_true, if_false]
       refine ⟨_, rfl, ?_, ?_, ?_⟩
       · simp [h3, den]
       · intro b hb hne; rw [write_mem_other _ _ _ _ hne, h4 b hb]
@@ -462,11 +467,22 @@ theorem C03.call_rejects {K : Type} [Add K] [Mul K] (jk : Nat → Vec K) (e : Op
   obtain ⟨s0, ea, hn0, hv0, hf0⟩ := alloc_spec s v
   exact ⟨s0, by simp [call, ea], fun b hb => hf0 b (by omega)⟩
 
+/-- An out-of-place body whose result cannot be cast to the range (model flag `junk`): `op(x)`
+is an `OpRangeError`; through the default in-place bridge the `ValueError` of `range.element`
+escapes. (Model definition, tied to `Operator.__call__` by the dispatch stream.) -/
+theorem C03.uncastable_result {K : Type} [Add K] [Mul K] (jk : Nat → Vec K) (l : Leaf K)
+    (hs : l.sig = .oop) (hf : l.fn = false) (hj : l.junk = true) (x y : Nat) (s : St K) :
+    callO jk (.leaf l) x s = .err .range (l.oop x s).2 ∧
+    callI jk (.leaf l) x y s = .err .value (l.oop x s).2 := by
+  constructor
+  · simp [callO, hs, hj]
+  · simp [callI, hs, hf, hj]
+
 /-- A leaf that returns its own argument (`RealPart` on a real space) satisfies the leaf
 contract — with the repaired `OperatorVectorSum` no expression class writes into the result
 of an inner out-of-place call, so freshness is not needed. -/
 theorem C03.ret_input_leaf_ok {K : Type} : LeafOK (retInputLeaf (K := K)) := by
-  refine ⟨fun _ s x hx => ?_, fun h => absurd rfl h⟩
+  refine ⟨fun _ => ⟨fun s x hx => ?_, rfl⟩, fun h => absurd rfl h⟩
   simp only [retInputLeaf]
   exact ⟨hx, le_refl _, by simp, fun _ _ => trivial⟩
 
@@ -492,7 +508,7 @@ out-of-place-only `ComplexModulusSquared`, functionals such as `InnerProductOper
 satisfy the leaf contract, aliased case included. -/
 theorem C03.scale_leaf_ok {K : Type} [Add K] [Mul K] [OfNat K 0] (c : K) :
     LeafOK (scalingLeaf c) := by
-  refine ⟨fun _ s x hx => ?_, fun _ s x y hx hy => ?_⟩
+  refine ⟨fun _ => ⟨fun s x hx => ?_, rfl⟩, fun _ s x y hx hy => ?_⟩
   · obtain ⟨s0, ea, hn0, hv0, hf0⟩ := alloc_spec s (fun i => c * s.mem x i)
     simp only [scalingLeaf, ea]
     exact ⟨by omega, by omega, hv0, fun b hb => hf0 b (by omega)⟩
@@ -503,9 +519,12 @@ theorem C03.default_leaves_ok {K : Type} [Add K] [Mul K] [OfNat K 0] (hK : CommA
     (v : Vec K) (pw : K → K) (f : Vec K → K) :
     LeafOK (constLeaf v) ∧ LeafOK (multLeaf v) ∧ LeafOK (powLeaf pw) ∧
     LeafOK (zeroLeaf (K := K)) ∧ LeafOK (modSqLeaf (K := K)) ∧ LeafOK (funcLeaf f) := by
-  refine ⟨⟨fun _ s x hx => ?_, fun _ s x y hx hy => ?_⟩, ⟨fun _ s x hx => ?_, fun _ s x y hx hy => ?_⟩,
-    ⟨fun _ s x hx => ?_, fun _ s x y hx hy => ?_⟩, ⟨fun _ s x hx => ?_, fun _ s x y hx hy => ?_⟩,
-    ⟨fun _ s x hx => ?_, fun h => absurd rfl h⟩, ⟨fun _ s x hx => ?_, fun h => absurd rfl h⟩⟩
+  refine ⟨⟨fun _ => ⟨fun s x hx => ?_, rfl⟩, fun _ s x y hx hy => ?_⟩,
+    ⟨fun _ => ⟨fun s x hx => ?_, rfl⟩, fun _ s x y hx hy => ?_⟩,
+    ⟨fun _ => ⟨fun s x hx => ?_, rfl⟩, fun _ s x y hx hy => ?_⟩,
+    ⟨fun _ => ⟨fun s x hx => ?_, rfl⟩, fun _ s x y hx hy => ?_⟩,
+    ⟨fun _ => ⟨fun s x hx => ?_, rfl⟩, fun h => absurd rfl h⟩,
+    ⟨fun _ => ⟨fun s x hx => ?_, rfl⟩, fun h => absurd rfl h⟩⟩
   · obtain ⟨s0, ea, hn0, hv0, hf0⟩ := alloc_spec s v
     simp only [constLeaf, ea]
     exact ⟨by omega, by omega, hv0, fun b hb => hf0 b (by omega)⟩
@@ -538,7 +557,7 @@ theorem C03.default_leaves_ok {K : Type} [Add K] [Mul K] [OfNat K 0] (hK : CommA
     exact ⟨by omega, by omega, hv0, fun b hb => hf0 b (by omega)⟩
 
 theorem C03.oop_leaf_ok {K : Type} (f : Vec K → Vec K) : LeafOK (oopLeaf f) := by
-  refine ⟨fun _ s x hx => ?_, fun h => absurd rfl h⟩
+  refine ⟨fun _ => ⟨fun s x hx => ?_, rfl⟩, fun h => absurd rfl h⟩
   obtain ⟨s0, ea, hn0, hv0, hf0⟩ := alloc_spec s (f (s.mem x))
   simp only [oopLeaf, ea]
   exact ⟨by omega, by omega, hv0, fun b hb => hf0 b (by omega)⟩
@@ -953,7 +972,7 @@ example : EntriesOK (K := Int) 2 1 true (broadcastEntries [.leaf (scalingLeaf 2)
 factor is a functional) satisfies the leaf contract. -/
 theorem C03.scalar_mult_leaf_ok {K : Type} [Add K] [Mul K] [OfNat K 0] (v : Vec K) :
     LeafOK (scalarMultLeaf v) := by
-  refine ⟨fun _ s x hx => ?_, fun _ s x y hx hy => ?_⟩
+  refine ⟨fun _ => ⟨fun s x hx => ?_, rfl⟩, fun _ s x y hx hy => ?_⟩
   · obtain ⟨s0, ea, hn0, hv0, hf0⟩ := alloc_spec s (fun i => s.mem x 0 * v i)
     simp only [scalarMultLeaf, ea]
     exact ⟨by omega, by omega, hv0, fun b hb => hf0 b (by omega)⟩
